@@ -35,7 +35,7 @@ class Untranslatable(Exception):
 ARG_KINDS = {
     "x": "V", "y": "V", "u": "V", "v": "V", "data1": "V", "data2": "V", "sigma": "V", "w": "V",
     "vinv": "M", "p": "S", "z": "S", "a": "S", "b": "S",
-    "ind1": "NV", "ind2": "NV", "n_features": "N", "ar1": "NV", "ar2": "NV", "arr": "NV", "vec": "V",
+    "ind1": "NV", "ind2": "NV", "n_features": "N", "ar1": "NV", "ar2": "NV", "arr": "NV", "vec": "V", "val": "S",
 }
 LEAN_TYPES = {"S": "α", "V": "List α", "M": "List (List α)", "B": "Bool", "N": "Nat", "Z": "Int", "NV": "List Nat",
               "BV": "List Bool"}
@@ -966,6 +966,20 @@ def regen_sparse_src(lean_dir, write_if_changed):
     changed |= write_if_changed(os.path.join(lean_dir, "Generated", "SparseSrcRun.lean"),
                                 run_table(meta, "SparseSrc", "SrcSparse", "runSparse"))
     return changed, rep
+
+
+LAYOUT_FUNCS = ["clip", "rdist"]
+
+
+def regen_layout_src(lean_dir, write_if_changed):
+    import os
+    import umap.layouts as L
+    text, rep = translate_module(inspect.getsource(L), LAYOUT_FUNCS, "umap/layouts.py", "SrcLayout", "C07Src.lean")
+    meta = rep.pop("__meta__")
+    ch = write_if_changed(os.path.join(lean_dir, "Generated", "LayoutSrc.lean"), text)
+    ch |= write_if_changed(os.path.join(lean_dir, "Generated", "LayoutSrcRun.lean"),
+                           run_table(meta, "LayoutSrc", "SrcLayout", "runLayout"))
+    return ch, rep
 
 
 def regen_dist_src(lean_dir, write_if_changed):
